@@ -142,6 +142,25 @@ func domCSV(positional bool) func(stream) string {
 	}
 }
 
+// TSV: as CSV (every byte string is a cell, through the \t \n \r \\ escapes),
+// except that a line may not be empty: a one-column record whose cell is empty
+// is indistinguishable from a blank line and the documentation does not say
+// which it is (unconstrained).
+func domTSV(positional bool) func(stream) string {
+	base := domCSV(positional)
+	return func(s stream) string {
+		if why := base(s); why != "" {
+			return why
+		}
+		for i, r := range s {
+			if len(r) == 1 && (r[0].V == "" || (i == 0 && !positional && r[0].K == "")) {
+				return "empty-line"
+			}
+		}
+		return ""
+	}
+}
+
 // CSV with --csv-trim-leading-space: leading white space of a field is dropped by the reader.
 func domCSVTrim(s stream) string {
 	if r := domCSV(false)(s); r != "" {
@@ -248,6 +267,11 @@ func domDKVPX(s stream) string {
 // NIDX: values only, keys are positions; FS may repeat, so an empty value is
 // not representable.
 func domNIDX(fs, rs string) func(stream) string {
+	// new-in-miller-6.md: "for NIDX format, the default IFS now allows splitting on one or more of space or tab"
+	fsChars := fs
+	if fs == " " {
+		fsChars = " \t"
+	}
 	return func(s stream) string {
 		if anyEmptyRecord(s) {
 			return "empty-record"
@@ -260,7 +284,7 @@ func domNIDX(fs, rs string) func(stream) string {
 				if f.V == "" {
 					return "empty-value"
 				}
-				if strings.Contains(f.V, fs) {
+				if strings.ContainsAny(f.V, fsChars) {
 					return "cell-contains-FS"
 				}
 			}
@@ -382,6 +406,9 @@ func domJSON(s stream) string {
 			if looksNumericNonJSON(f.V) {
 				return "non-json-number-spelling"
 			}
+			if f.V == "-0" {
+				return "int-respelled" // ints are documented to be re-rendered in decimal
+			}
 		}
 	}
 	return ""
@@ -396,13 +423,14 @@ func looksNumericNonJSON(v string) bool {
 		return false
 	}
 	c := v[0]
-	numericStart := c >= '0' && c <= '9'
-	if (c == '-' || c == '+' || c == '.') && len(v) > 1 {
+	digit := func(b byte) bool { return b >= '0' && b <= '9' }
+	numericStart := digit(c)
+	if (c == '-' || c == '+' || c == '.') && len(v) > 1 && (digit(v[1]) || v[1] == '.') {
 		numericStart = true
 	}
 	if !numericStart {
 		switch strings.ToLower(v) {
-		case "inf", "nan", "infinity", "+inf", "-inf":
+		case "inf", "nan", "infinity", "+inf", "-inf", "+infinity", "-infinity", "+nan", "-nan":
 			return true
 		}
 		return false
@@ -468,9 +496,9 @@ func variants() []variant {
 		{name: "csv-tabfs", format: "csv", flags: []string{"--csv", "--fs", "tab"}, domain: domCSV(false), std: "csv", fs: "\t", rs: "\n", thoroughOnly: true},
 		{name: "csv-trim", format: "csv", flags: []string{"--csv", "--csv-trim-leading-space"}, domain: domCSVTrim, fs: ",", rs: "\n", thoroughOnly: true},
 		// TSV
-		{name: "tsv", format: "tsv", flags: []string{"--tsv"}, domain: domCSV(false), std: "tsv", fs: "\t", rs: "\n"},
-		{name: "tsv-crlf", format: "tsv", flags: []string{"--tsv", "--ors", "crlf"}, domain: domCSV(false), std: "tsv", stdReadSkip: true, fs: "\t", rs: "\r\n"},
-		{name: "tsv-implicit", format: "tsv", flags: []string{"--tsv", "--implicit-tsv-header", "--headerless-tsv-output"}, positional: true, domain: domCSV(true), std: "tsv", fs: "\t", rs: "\n"},
+		{name: "tsv", format: "tsv", flags: []string{"--tsv"}, domain: domTSV(false), std: "tsv", fs: "\t", rs: "\n"},
+		{name: "tsv-crlf", format: "tsv", flags: []string{"--tsv", "--ors", "crlf"}, domain: domTSV(false), std: "tsv", stdReadSkip: true, fs: "\t", rs: "\r\n"},
+		{name: "tsv-implicit", format: "tsv", flags: []string{"--tsv", "--implicit-tsv-header", "--headerless-tsv-output"}, positional: true, domain: domTSV(true), std: "tsv", fs: "\t", rs: "\n"},
 		// CSV-lite family
 		{name: "csvlite", format: "csvlite", flags: []string{"--csvlite"}, domain: domLite(",", "\n", false), fs: ",", rs: "\n", bomStrip: true},
 		{name: "csvlite-semicolon", format: "csvlite", flags: []string{"--csvlite", "--fs", "semicolon"}, domain: domLite(";", "\n", false), fs: ";", rs: "\n"},
@@ -510,7 +538,7 @@ func variants() []variant {
 		// JSON
 		{name: "json", format: "json", flags: []string{"--json"}, domain: domJSON, std: "json"},
 		{name: "json-nostack", format: "json", flags: []string{"--json", "--no-jvstack"}, domain: domJSON, std: "json", stdReadSkip: true},
-		{name: "json-nowrap", format: "json", flags: []string{"--json", "--no-jlistwrap"}, domain: domJSON, std: "jsonl", stdReadSkip: true},
+		{name: "json-nowrap", format: "json", flags: []string{"--json", "--no-jlistwrap"}, domain: domJSON, std: "jsonseq", stdReadSkip: true},
 		{name: "json-quoteall", format: "json", flags: []string{"--json", "--jvquoteall"}, domain: domJSON, std: "json", stdReadSkip: true},
 		{name: "jsonl", format: "jsonl", flags: []string{"--jsonl"}, domain: domJSON, std: "jsonl"},
 		// YAML
